@@ -91,6 +91,9 @@ fn main() {
         "deepprobe" => {
             println!("{}", oracles::deep_probe().to_json("deepprobe"));
         }
+        "rejectprobe" if args.len() == 3 => {
+            oracles::reject_probe(args[2].parse().unwrap_or(0));
+        }
         "dropprobe" if args.len() == 3 => {
             oracles::drop_probe(args[2].parse().unwrap_or(0));
         }
